@@ -117,6 +117,15 @@ def render_limits(n, ind):
     return [f"{ind}limits {{ " + " ".join(parts) + " }"] if parts else []
 
 
+def fmt_gap(minutes):
+    """gap durations are calendar time: whole days and weeks are written in those units"""
+    if minutes and minutes % 10080 == 0:
+        return f"{minutes // 10080}w"
+    if minutes and minutes % 1440 == 0:
+        return f"{minutes // 1440}d"
+    return fmt_dur(minutes)
+
+
 def render_deps(n, path, key):
     if not n.get(key):
         return []
@@ -124,11 +133,11 @@ def render_deps(n, path, key):
     for d in n[key]:
         opts = []
         if d.get("gap"):
-            opts.append(f"gapduration {fmt_dur(d['gap'])}")
+            opts.append(f"gapduration {fmt_gap(d['gap'])}")
         if d.get("gaplen"):
             opts.append(f"gaplength {fmt_dur(d['gaplen'])}")
         if d.get("maxgap"):
-            opts.append(f"maxgapduration {fmt_dur(d['maxgap'])}")
+            opts.append(f"maxgapduration {fmt_gap(d['maxgap'])}")
         if d.get("onstart"):
             opts.append("onstart")
         if d.get("onend"):
